@@ -328,7 +328,21 @@ def run(ctx):
     round_trip(ctx, 'repeated-child', rr, np.random.RandomState(0), dict(kind='c13', table=table_with_py(table, order)), known_repeated=True)
 
 
+_run_core = run
+
+
+def run(ctx):
+    _run_core(ctx)
+    if ctx.n_new() == 0 and ctx.driver_ok:
+        from harness.common import run_demo
+        run_demo(ctx, 'demo_io32.py', [20260929 + ctx.seed], 'c13-float-generations',
+                 'save/load generations against the binary32/binary64 model (document numbers and stored values, exact)', env_extra=dict(DEMO_N='40' if ctx.tier == 'quick' else '300', DEMO_Q='4000' if ctx.tier == 'quick' else '24000'))
+
+
 def replay(rep):
+    if rep['replay'].get('kind') == 'demo':
+        from harness.common import replay_demo
+        return replay_demo(rep['replay'])
     from harness.build import build_from_table
     r = rep['replay']
     if r['kind'] == 'c13':
